@@ -738,7 +738,7 @@ def _semantic_tasks(tier, seed):
     # command line granted option: reduced enumeration
     for pr_author in PR_AUTHORS:
         tasks.append(('len01', pr_author, ('bypass_jira_check',)))
-    n3 = 1500000 if tier == 'thorough' else 24000
+    n3 = 4000000 if tier == 'thorough' else 24000
     chunks = 64 if tier == 'thorough' else 32
     for k in range(chunks):
         tasks.append(('len3', seed * 1000 + k, n3 // chunks))
@@ -1068,9 +1068,10 @@ def run(tier: str = 'quick', seed: int = 0, jobs: int = 16) -> dict:
         'n_failure_signatures': len(sigs),
         'failure_groups': dict(sorted(groups.items(), key=lambda kv: -kv[1])),
         'samples': picked[:5],
-        'exhaustive': True,
-        'exhaustive_note': 'length <= 2 exhaustive over the pool; length 3 '
-                           'is a seeded sample',
+        'exhaustive': False,
+        'exhaustive_note': 'part (a) and comment lists of length <= 2 are '
+                           'exhaustive over the bounded grammar/pool; length '
+                           '3 is a seeded sample',
         'wall_s': round(time.time() - t0, 2),
     }
 
